@@ -75,14 +75,6 @@ Proof.
     rewrite !lower_app. split; [reflexivity|]. rewrite !lower_idem. exact L.
 Qed.
 
-(* field-name lookup: lower-casing the requested name and comparing with the
-   stored lower-cased name is the case-insensitive comparison *)
-Lemma lookup_ci h name : bytes_eqb (lower h) h = true ->
-  bytes_eqb h (lower name) = ci_eqb h name.
-Proof.
-  intros H. apply bytes_eqb_eq in H. unfold ci_eqb. rewrite H. reflexivity.
-Qed.
-
 (* ---- sequence sets *)
 Lemma mem_N_In n l : mem_N n l = true <-> In n l.
 Proof.
